@@ -36,9 +36,66 @@ Definition eqb_step (a b : obs_step) : bool :=
       (c1 =? c2) && (u1 =? u2) && eqb_list eqb_row b1 b2 && eqb_list eqb_row a1 a2
   end.
 
-Definition mk_world (pats : list bytes) (files : list (bytes * N)) (dirs : list bytes)
+(** * Compact encoding of the cases
+
+    Most strings of a case start with the root of the harness' temporary tree,
+    and the tree itself is always the same; printing them in full made the
+    case files large and slow to parse.  A [pstr] is a string relative to the
+    root; the tree is the constant [std_files] (checked against the harness'
+    own list by the [CTree] case of every run); directories are derived (every
+    ancestor of a file exists); host files that exist outside the tree come as
+    a bit mask over [host_extras]. *)
+Definition pstr := (bool * bytes)%type.
+Definition dec (root : bytes) (p : pstr) : bytes := if fst p then root ++ snd p else snd p.
+
+Definition std_files : list (bytes * N) :=
+  [([115;97;102;101;47;97;46;116;120;116], 1);
+   ([115;97;102;101;47;98;46;108;115;116], 2);
+   ([115;97;102;101;47;115;117;98;47;99;46;116;120;116], 3);
+   ([115;97;102;101;50;47;100;46;116;120;116], 4);
+   ([115;101;99;114;101;116;47;115;46;116;120;116], 5);
+   ([111;116;104;101;114;46;116;120;116], 6);
+   ([115;97;102;101;47;91;120;93;46;116;120;116], 7);
+   ([115;97;102;101;47;195;188;46;116;120;116], 8);
+   ([115;97;102;101;47;115;117;98;47;100;101;101;112;47;101;46;116;120;116], 9);
+   ([115;97;102;101;47;45;46;116;120;116], 10)].
+
+Definition host_extras : list bytes :=
+  [[47;101;116;99;47;112;97;115;115;119;100];
+   [47;101;116;99;47;104;111;115;116;110;97;109;101];
+   [47;101;116;99];
+   [47;112;114;111;99;47;115;101;108;102;47;101;110;118;105;114;111;110];
+   [47;112;114;111;99;47;115;101;108;102];
+   [47;112;114;111;99]].
+
+(** every proper prefix of [s] that ends before a '/', and "/" itself *)
+Fixpoint ancestors_from (pre_rev s : bytes) : list bytes :=
+  match s with
+  | nil => nil
+  | c :: t =>
+      (if c =? 47 then (match pre_rev with nil => 47 :: nil | _ => rev pre_rev end) :: nil else nil)
+      ++ ancestors_from (c :: pre_rev) t
+  end.
+Definition ancestors (s : bytes) : list bytes := ancestors_from nil s.
+
+Fixpoint select_mask (mask : N) (i : N) (l : list bytes) : list bytes :=
+  match l with
+  | nil => nil
+  | x :: r => (if N.testbit mask i then x :: nil else nil) ++ select_mask mask (i + 1) r
+  end.
+
+Definition tree_files (root : bytes) : list (bytes * N) :=
+  map (fun x => (root ++ 47 :: fst x, snd x)) std_files.
+
+Definition mk_world (root : bytes) (mask : N) (pats : list pstr)
     (http : list (bytes * N)) (urlok : list bytes) : world :=
-  {| w_pats := pats; w_files := files; w_dirs := dirs; w_http := http; w_urlok := urlok |}.
+  {| w_pats := map (dec root) pats;
+     w_files := tree_files root;
+     w_dirs := flat_map (fun x => ancestors (fst x)) (tree_files root) ++ select_mask mask 0 host_extras;
+     w_http := http; w_urlok := urlok |}.
+
+Definition prow := (pstr * bool * N)%type.
+Definition dec_row (root : bytes) (r : prow) : row := (dec root (fst (fst r)), snd (fst r), snd r).
 
 (** a planted entry: URL, enabled, marker of the file already in data/filters (0 none);
     New() loads the files of enabled entries and remembers their checksums *)
@@ -46,25 +103,45 @@ Definition mk_flt (r : row) : flt :=
   {| f_url := fst (fst r); f_enabled := snd (fst r); f_loaded := snd r;
      f_sum := if snd (fst r) then snd r else 0 |}.
 
+Inductive eop :=
+  | op_add (loc : pstr) (white : bool)
+  | op_set (old new : pstr) (enabled white : bool)
+  | op_refresh (white : bool).
+
+Definition dec_op (root : bytes) (o : eop) : op :=
+  match o with
+  | op_add l w => OAdd (dec root l) w
+  | op_set o n e w => OSetUrl (dec root o) (dec root n) e w
+  | op_refresh w => ORefresh w
+  end.
+
+Definition eobs := (N * N * list prow * list prow)%type.
+Definition dec_obs (root : bytes) (o : eobs) : obs_step :=
+  match o with (c, u, b, a) => (c, u, map (dec_row root) b, map (dec_row root) a) end.
+
 Definition gres_code (r : gres bool) : N :=
   match r with GOk false => 0 | GOk true => 1 | GBad => 2 | GFuel => 3 end.
 
 Inductive case :=
-  (* a history over one DNSFilter: world, planted block/allow lists, operations,
-     and after every step what was observed *)
-  | CHist (pats : list bytes) (files : list (bytes * N)) (dirs : list bytes)
+  (* the harness' tree and host candidates: must be the constants above *)
+  | CTree (files : list (bytes * N)) (extras : list bytes)
+  (* a history over one DNSFilter: root, host mask, patterns, HTTP world, planted
+     block/allow lists, operations, and after every step what was observed *)
+  | CHist (root : bytes) (mask : N) (pats : list pstr)
           (http : list (bytes * N)) (urlok : list bytes)
-          (block allow : list row) (ops : list op) (obs : list obs_step)
+          (block allow : list prow) (ops : list eop) (obs : list eobs)
   (* validateFilterURL alone: observed code (0 accepted) *)
-  | CValidate (pats : list bytes) (files : list (bytes * N)) (dirs : list bytes)
-              (urlok : list bytes) (loc : bytes) (obs : N)
+  | CValidate (root : bytes) (mask : N) (pats : list pstr) (urlok : list bytes)
+              (loc : pstr) (obs : N)
   (* DNSFilter.reader alone: observed 0 + marker read / 1 error / 7 panic *)
-  | CReader (pats : list bytes) (files : list (bytes * N)) (http : list (bytes * N))
-            (loc : bytes) (obs : N) (marker : N)
+  | CReader (root : bytes) (pats : list pstr) (http : list (bytes * N))
+            (loc : pstr) (obs : N) (marker : N)
   (* filepath.Match *)
   | CGlob (pat name : bytes) (obs : N)
+  | CGlobR (root : bytes) (pat name : pstr) (obs : N)
   (* path.Clean and filepath.Clean (both must give [obs]) *)
-  | CClean (p : bytes) (obs : bytes).
+  | CClean (p : bytes) (obs : bytes)
+  | CCleanR (root : bytes) (p obs : pstr).
 
 Definition validate_code (o : option rej) : N :=
   match o with None => 0 | Some k => rej_code k end.
@@ -75,41 +152,48 @@ Definition reader_obs (w : world) (loc : bytes) : N * N :=
   | src => match fetch w src with Some m => (0, m) | None => (1, 0) end
   end.
 
+Definition eqb_file (a b : bytes * N) : bool := eqb_bytes (fst a) (fst b) && (snd a =? snd b).
+
+Definition hist_trace root mask pats http urlok block allow ops : list obs_step :=
+  let w := mk_world root mask pats http urlok in
+  let st := {| s_block := map (fun r => mk_flt (dec_row root r)) block;
+               s_allow := map (fun r => mk_flt (dec_row root r)) allow |} in
+  map proj_step (trace w st (map (dec_op root) ops)).
+
 Definition case_ok (c : case) : bool :=
   match c with
-  | CHist pats files dirs http urlok block allow ops obs =>
-      let w := mk_world pats files dirs http urlok in
-      let st := {| s_block := map mk_flt block; s_allow := map mk_flt allow |} in
-      eqb_list eqb_step (map proj_step (trace w st ops)) obs
-  | CValidate pats files dirs urlok loc obs =>
-      let w := mk_world pats files dirs nil urlok in
-      validate_code (validate_url pats (w_exists w) (w_url_ok w) loc) =? obs
-  | CReader pats files http loc obs m =>
-      let w := mk_world pats files nil http nil in
-      (fst (reader_obs w loc) =? obs) && (snd (reader_obs w loc) =? m)
+  | CTree files extras =>
+      eqb_list eqb_file files std_files && eqb_list eqb_bytes extras host_extras
+  | CHist root mask pats http urlok block allow ops obs =>
+      eqb_list eqb_step (hist_trace root mask pats http urlok block allow ops)
+               (map (dec_obs root) obs)
+  | CValidate root mask pats urlok loc obs =>
+      let w := mk_world root mask pats nil urlok in
+      validate_code (validate_url (w_pats w) (w_exists w) (w_url_ok w) (dec root loc)) =? obs
+  | CReader root pats http loc obs m =>
+      let w := mk_world root 0 pats http nil in
+      (fst (reader_obs w (dec root loc)) =? obs) && (snd (reader_obs w (dec root loc)) =? m)
   | CGlob pat name obs => gres_code (glob_match pat name) =? obs
+  | CGlobR root pat name obs => gres_code (glob_match (dec root pat) (dec root name)) =? obs
   | CClean p obs => eqb_bytes (clean p) obs
+  | CCleanR root p obs => eqb_bytes (clean (dec root p)) (dec root obs)
   end.
 
 Definition mismatches := Base.Run.mismatches case_ok.
 
 Definition explain (c : case) : list obs_step * N * N * bytes :=
   match c with
-  | CHist pats files dirs http urlok block allow ops _ =>
-      let w := mk_world pats files dirs http urlok in
-      let st := {| s_block := map mk_flt block; s_allow := map mk_flt allow |} in
-      (map proj_step (trace w st ops), 0, 0, nil)
-  | CValidate pats files dirs urlok loc _ =>
-      let w := mk_world pats files dirs nil urlok in
-      (nil, validate_code (validate_url pats (w_exists w) (w_url_ok w) loc), 0, nil)
-  | CReader pats files http loc _ _ =>
-      let w := mk_world pats files nil http nil in
-      (nil, fst (reader_obs w loc), snd (reader_obs w loc), nil)
+  | CTree _ _ => (nil, 0, 0, nil)
+  | CHist root mask pats http urlok block allow ops _ =>
+      (hist_trace root mask pats http urlok block allow ops, 0, 0, nil)
+  | CValidate root mask pats urlok loc _ =>
+      let w := mk_world root mask pats nil urlok in
+      (nil, validate_code (validate_url (w_pats w) (w_exists w) (w_url_ok w) (dec root loc)), 0, nil)
+  | CReader root pats http loc _ _ =>
+      let w := mk_world root 0 pats http nil in
+      (nil, fst (reader_obs w (dec root loc)), snd (reader_obs w (dec root loc)), nil)
   | CGlob pat name _ => (nil, gres_code (glob_match pat name), 0, nil)
+  | CGlobR root pat name _ => (nil, gres_code (glob_match (dec root pat) (dec root name)), 0, nil)
   | CClean p _ => (nil, 0, 0, clean p)
+  | CCleanR root p _ => (nil, 0, 0, clean (dec root p))
   end.
-
-(** short names for the harness' printer *)
-Definition op_add := OAdd.
-Definition op_set := OSetUrl.
-Definition op_refresh := ORefresh.
